@@ -8,9 +8,9 @@ import props.C02 as C02
 PID = 'C17'
 PROPERTY_FILE = 'Properties/C17.v'
 # generated model parts (translate/) this property's model / proofs really depend on
-GEN_DEPS = ['QuantityImpl']
+GEN_DEPS = ['OpsImpl', 'QuantityImpl']
 MODEL_TARGETS = R.MODEL_TARGETS
-PROOF_TARGETS = ['Proofs/C15Proofs.vo']
+PROOF_TARGETS = ['Proofs/GenOpsEq.vo', 'Proofs/C15Proofs.vo']
 COQ_HEADER = R.COQ_HEADER
 COQ_CHECK = R.COQ_CHECK
 ISOLATE = True
